@@ -215,7 +215,15 @@ def classify(h, res, err, props, cbmc):
                 c in tool or not MACHINERY_PAT.search(c["description"] + " " + (c.get("category") or ""))
                 for c in failed) and not any("unwinding" in c["description"] or "missing_definition" in (c.get("category") or "")
                                              for c in failed)
-            if only_tool:
+            # a failed *assertion* in the harness or in the repository's own code is still a candidate violation
+            # (the native replay decides), even if a tool-limitation check failed on some other path
+            def _user(c):
+                f = (c.get("location") or {}).get("file") or ""
+                return (c.get("category") or "") == "assertion" and ("/repo/" in f or f.startswith("src/") or "/engines/kani/" in f or "/tmp/seed/" in f)
+            user = [c for c in failed if _user(c)]
+            if only_tool and user and h.kind != "reach":
+                out.update(verdict="fails", reason="%s @ %s:%s" % (user[0]["description"], os.path.basename((user[0].get("location") or {}).get("file") or "?"), (user[0].get("location") or {}).get("line")))
+            elif only_tool:
                 out.update(verdict="undecided", reason="tool limitation: " + tool[0]["description"])
             else:
                 out.update(verdict="undecided", reason="bound/encoding: " + mach[0]["description"])
